@@ -1028,6 +1028,23 @@ def pat_leak(rnd, sid):
     return {"id": sid, "tick_us": 2000, "sources": srcs, "progs": progs, "steps": steps}
 
 
+def pat_many(rnd, sid):
+    """More items at once than the per-dispatch limits of the real code (1024): everything is delivered in order over the
+    following dispatches, nothing is stranded, the stream ends / the channel closes exactly once."""
+    r = rnd
+    kind = r.choice(["stream", "chan"])
+    srcs = [{"s": 1, "kind": kind}]
+    n = r.choice([1024, 1025, 1100, 2100])
+    steps = [{"op": "insert", "s": 1}]
+    if r.random() < 0.5:
+        steps.append({"op": "dispatch"})
+    steps.append({"op": "push_many" if kind == "stream" else "send_many", "s": 1, "m": 5000, "d": n})
+    if r.random() < 0.5:
+        steps.append({"op": "end_stream", "s": 1} if kind == "stream" else {"op": "drop_sender", "s": 1})
+    steps += [{"op": "dispatch"}] * 4
+    return {"id": sid, "tick_us": 2000, "sources": srcs, "progs": {}, "steps": steps}
+
+
 def gen(seed, n, classes=None):
     classes = classes or CLASSES
     out = []
@@ -1043,6 +1060,8 @@ def gen(seed, n, classes=None):
             out.append(pat_defer(rnd, "d%d_%s_%d" % (seed, cls, i)))
         elif 0.8 <= x < 0.9 and cls in ("fds", "reuse"):
             out.append(pat_dupfd(rnd, "u%d_%s_%d" % (seed, cls, i)))
+        elif 0.7 <= x < 0.76 and cls in ("chans", "streams"):
+            out.append(pat_many(rnd, "n%d_%s_%d" % (seed, cls, i)))
         elif 0.4 <= x < 0.7 and cls == "chans":
             out.append(pat_chanfull(rnd, "q%d_%s_%d" % (seed, cls, i)))
         elif cls == "execs":
